@@ -896,6 +896,9 @@ func (p *Prog) Effects(fn *ssa.Function) []*Effect {
 	var out []*Effect
 	env := p.Env(fn)
 	for _, b := range fn.Blocks {
+		if b == fn.Recover {
+			continue // entered only after a recovered panic; not part of the normal control flow
+		}
 		for _, in := range b.Instrs {
 			switch x := in.(type) {
 			case ssa.CallInstruction:
